@@ -48,6 +48,11 @@ const char* const STN[3] = { "unfeasible", "optimized", "unbounded" };
 inline int st_code(MIP_Problem_Status s) { return s == UNFEASIBLE_MIP_PROBLEM ? 0 : s == OPTIMIZED_MIP_PROBLEM ? 1 : 2; }
 inline int pv_code(MIP_Problem::Control_Parameter_Value v) { return v == MIP_Problem::PRICING_STEEPEST_EDGE_FLOAT ? 0 : v == MIP_Problem::PRICING_STEEPEST_EDGE_EXACT ? 1 : 2; }
 
+#ifdef PPL_NDEBUG
+const bool g_assertions = false;
+#else
+const bool g_assertions = true;    // san-assert variant: PPL's own PPL_ASSERT(OK()) are live
+#endif
 unsigned long long g_budget = 30000000ULL;
 unsigned g_bb_cap = 300;
 long g_enum_cap = 4096;
@@ -131,22 +136,27 @@ struct Ref {
 };
 
 // best-first branch&bound over RefLP. 1: found (optimal unless feas_only), 0: no integer point, -1: node cap
+// A node is a box on the integer variables (tightest bounds only, so every LP has at most |S| + 2|I| rows).
 int ref_bb(int n, const Sys& S, const std::vector<int>& I, const Vec& oa, bool feas_only, Q& val, Vec& x, unsigned cap) {
-  struct Node { Sys extra; Q bound; Vec x; unsigned id; };
-  std::vector<Node> open; unsigned ids = 0, nodes = 0; Vec zero(n);
+  struct Node { std::vector<mpz_class> lo, hi; std::vector<char> hlo, hhi; Q bound; Vec x; unsigned id; };
+  std::vector<Node> open; unsigned ids = 0, nodes = 0; Vec zero(n); size_t ni = I.size();
   const Vec& obj = feas_only ? zero : oa;
-  { ref::LPResult r = ref::lp_max_closed(n, S, obj); if (r.status == ref::INFEASIBLE) return 0; if (r.status == ref::UNBOUNDED) return -1; Node nd; nd.bound = r.value; nd.x = r.x; nd.id = ids++; open.push_back(nd); }
+  { ref::LPResult r = ref::lp_max_closed(n, S, obj); if (r.status == ref::INFEASIBLE) return 0; if (r.status == ref::UNBOUNDED) return -1;
+    Node nd; nd.lo.resize(ni); nd.hi.resize(ni); nd.hlo.assign(ni, 0); nd.hhi.assign(ni, 0); nd.bound = r.value; nd.x = r.x; nd.id = ids++; open.push_back(nd); }
   while (!open.empty()) {
     size_t b = 0; for (size_t i = 1; i < open.size(); ++i) if (open[i].bound > open[b].bound || (open[i].bound == open[b].bound && open[i].id < open[b].id)) b = i;
     Node nd = open[b]; open.erase(open.begin() + b);
-    int bi = -1; for (size_t k = 0; k < I.size(); ++k) if (!integral(nd.x[I[k]])) { bi = I[k]; break; }
-    if (bi < 0) { val = nd.bound; x = nd.x; return 1; }
+    int bk = -1; for (size_t k = 0; k < ni; ++k) if (!integral(nd.x[I[k]])) { bk = (int) k; break; }
+    if (bk < 0) { val = nd.bound; x = nd.x; return 1; }
     if (++nodes > cap) return -1;
     for (int side = 0; side < 2; ++side) {
-      Node ch; ch.extra = nd.extra; Vec e(n);
-      if (side == 0) { e[bi] = 1; ch.extra.push_back(Con(e, Q(floorq(nd.x[bi])), ref::LE)); }
-      else { e[bi] = -1; ch.extra.push_back(Con(e, Q(-ceilq(nd.x[bi])), ref::LE)); }
-      Sys s2 = S; s2.insert(s2.end(), ch.extra.begin(), ch.extra.end());
+      Node ch = nd;
+      if (side == 0) { ch.hi[bk] = floorq(nd.x[I[bk]]); ch.hhi[bk] = 1; } else { ch.lo[bk] = ceilq(nd.x[I[bk]]); ch.hlo[bk] = 1; }
+      Sys s2 = S;
+      for (size_t k = 0; k < ni; ++k) {
+        if (ch.hhi[k]) { Vec e(n); e[I[k]] = 1; s2.push_back(Con(e, Q(ch.hi[k]), ref::LE)); }
+        if (ch.hlo[k]) { Vec e(n); e[I[k]] = -1; Q l(ch.lo[k]); s2.push_back(Con(e, Q(-l), ref::LE)); }
+      }
       ref::LPResult r = ref::lp_max_closed(n, s2, obj);
       if (r.status != ref::OPTIMAL) continue;   // infeasible (unbounded impossible: the root was bounded)
       ch.bound = r.value; ch.x = r.x; ch.id = ids++; open.push_back(ch);
@@ -545,7 +555,7 @@ void check_ok(Slot& s, const std::string& after) {
   bool partial = state_word(*s.m).compare(0, 21, "PARTIALLY_SATISFIABLE") == 0;
   std::string cls = !threw.empty() ? ":throws" : after != "add_to_integer_space_dimensions" ? "" : partial ? ":cached-point-not-integral" : ":status-not-downgraded";
   violation("C06.ok." + after + cls, (threw.empty() ? "OK() is false after " : "OK() throws (" + threw + ") after ") + after + "; state " + state_word(*s.m) + "; " + show(s.D));
-  if (after != "add_to_integer_space_dimensions" || !partial) throw Stop();
+  if (after != "add_to_integer_space_dimensions" || !partial || g_assertions) throw Stop();   // with PPL_ASSERT enabled the next mutator would abort on PPL_ASSERT(OK())
   s.skip_ok = true;   // the state itself is legitimate: go on, without consulting OK() until the problem is resolved
 }
 // "" or the differing field; tolerant of (already reported) extra branching rows
